@@ -135,7 +135,7 @@ class Interp:
         self.loop_counter = []
         self.interpret_all = interpret_all
         self.noop_attr_calls = {"logger", "logging", "warnings"}
-        self.set_order_nondet = bool(os.environ.get("PYVC_SET_ORDER"))   # True: iterating a native set forks over every order (C14 hash-seed independence)
+        self.set_order_nondet = os.environ.get("PYVC_SET_ORDER", "1") != "0"   # True: iterating a native set forks over every order (C14 hash-seed independence)
         self.heap_writes = []  # (SObj, field) of every attribute store on a symbolic heap object
         self.called = set()  # (rel, qualname) of every repo function interpreted on this path
         self.native_called = set()
